@@ -270,12 +270,18 @@ def translate():
          "Import ListNotations.",
          "Open Scope string_scope.",
          "",
-         "(** (location, enclosing function, classification) *)",
+         "(** (file#k-th use inside the function, enclosing function, classification) *)",
          "Definition verbose_uses : list (string * string * vuse) := ["]
     items = []
+    ordinal = {}
     for loc, fn, k, why in all_uses:
         term = ("VOther %s" % cstr(why)) if k == "VOther" else k
-        items.append("  (%s, %s, %s)" % (cstr(loc), cstr(fn), term if " " not in term else "(" + term + ")"))
+        # the generated location is position-independent (file, k-th use inside the function): moving code up or
+        # down must not change Gen/Guards.v; line numbers stay in the status / error messages
+        rel = loc.rsplit(":", 1)[0]
+        ordinal[(rel, fn)] = ordinal.get((rel, fn), 0) + 1
+        place = "%s#%d" % (rel, ordinal[(rel, fn)])
+        items.append("  (%s, %s, %s)" % (cstr(place), cstr(fn), term if " " not in term else "(" + term + ")"))
         if k == "VOther":
             status["use:" + loc] = "%s in %s: %s" % (loc, fn, why)
     L.append(";\n".join(items))
